@@ -109,6 +109,75 @@ def acked(o):
 
 
 # ---------------------------------------------------------------------------- D1
+class ReaderHooks(EBB3Hooks):
+    """var_read answers the k-th call with a symbolic byte b<k> (0..255); the slot asked for is
+    recorded.  Lets a hand-written big-endian join be evaluated as a normal form."""
+
+    def __init__(self, engine):
+        EBB3Hooks.__init__(self, engine, inject=False, exclude='var_read_int32')
+        self.k = 0
+
+    def call(self, interp, target, args, kwargs, st, node):
+        if isinstance(target, Bound) and isinstance(target.obj, ObjRef) and target.name == 'var_read':
+            k = sum(1 for e in st.effects if e.kind == 'summary' and e.target == 'query')
+            info = SumInfo('num', False, True, True, None)
+            slot = args[0] if args else kwargs.get('index')
+            s2 = st.effect(Effect('summary', 'query', (info, Str(('QL,', Slot(slot)))), node.lineno,
+                                  interp.cur.qualname))
+            return [(Sym.var('b%d' % k), s2)]
+        return EBB3Hooks.call(self, interp, target, args, kwargs, st, node)
+
+
+def reader_by_witness(ck, eng, rfn, start):
+    """The reader does not end in int.from_bytes: interpret it with symbolic bytes and compare the
+    returned normal form with the signed big-endian value on a grid of byte patterns."""
+    import itertools
+    hk = ReaderHooks(eng)
+    poly.INT_VARS.update(['b0', 'b1', 'b2', 'b3'])
+    outs = [o for o in eng.run('var_read_int32', OK, hooks=hk) if o.kind == 'return']
+    rq = rfn.qualname
+    if not outs:
+        raise AnalysisError('%s: no returning path with symbolic bytes' % rq)
+    vals = [0, 1, 2, 127, 128, 129, 254, 255]
+    n = 0
+    from . import motion
+    for o in outs:
+        slots = [e.args[1].parts[1].value for e in o.state.effects
+                 if e.kind == 'summary' and e.target == 'query']
+        if not (len(slots) == 4 and all(isinstance(x, Sym) and x == start + k
+                                        for k, x in enumerate(slots))):
+            ck.ob('C16-D1-reader-slots', rq, False,
+                  '%s reads slots %s; expected start_index+k for k=0..3, in order'
+                  % (rq, [repr(x) for x in slots]), rfn.loc(), key=rq + '::slots')
+            return
+        if not isinstance(o.value, Sym):
+            raise AnalysisError('%s returns %r, which cannot be evaluated' % (rq, o.value))
+    ck.ob('C16-D1-reader-slots', rq, True)
+    for bs in itertools.product(vals, repeat=4):
+        pt = {'b%d' % k: b for k, b in enumerate(bs)}
+        pt['start_index'] = 3
+        want = int.from_bytes(bytes(bs), 'big', signed=True)
+        for o in outs:
+            try:
+                conds = [motion.norm_path_cond(c, t) for c, t in o.state.path]
+                if any(c is None for c in conds):
+                    raise KeyError('non-numeric condition')
+                if not all(motion._holds(e.evaluate(pt), op) for e, op in conds):
+                    continue
+                got = o.value.evaluate(pt)
+            except (KeyError, ZeroDivisionError, TypeError) as exc:
+                raise AnalysisError('%s: the join cannot be evaluated (%s)' % (rq, exc))
+            n += 1
+            if got != want:
+                ck.ob('C16-D1-reader-encoding', rq, False,
+                      '%s joins the bytes %s to %s; the signed big-endian value is %s'
+                      % (rq, list(bs), got, want), rfn.loc(), key=rq + '::encoding')
+                return
+    raise AnalysisError('%s does not end in int.from_bytes(...); its hand-written join agrees with '
+                        'the signed big-endian value on all %d sampled byte patterns; cannot '
+                        'conclude' % (rq, n))
+
+
 def check_int32(ck, eng):
     wfn = eng.method('var_write_int32')
     rfn = eng.method('var_read_int32')
@@ -199,8 +268,8 @@ def check_int32(ck, eng):
           '%s reads slots %s; expected start_index+k for k=0..3, in order'
           % (rq, [repr(s) for s in (read_slots or [])]), rfn.loc(), key=rq + '::slots')
     if rtuple is None:
-        raise AnalysisError('%s does not end in int.from_bytes(<the four values read>, ...); the '
-                            'join is done in a way this check cannot interpret' % rq)
+        reader_by_witness(ck, eng, rfn, start)
+        return
     ck.ob('C16-D1-reader-encoding', rq, rtuple == (4, 'big', True),
           '%s joins (count, byteorder, signed) = %s; expected (4, big, True)' % (rq, rtuple),
           rfn.loc(), key=rq + '::encoding')
